@@ -4,6 +4,7 @@ import (
 	"bytes"
 	"fmt"
 	"math"
+	"runtime/debug"
 	"slices"
 	"strings"
 
@@ -871,8 +872,24 @@ func (s *State) applyFunction(name string, fn object.Object, args []object.Objec
 		return res
 	}
 	s.cache.Set(memoKey, args, res, output)
+	s.cacheGrew(res, output)
 	log.Debugf("Cache miss for %s %v", function.CacheKey, args)
 	return res
+}
+
+// What the cache remembers is memory too, and nothing else bounds it: every so many bytes added, it starts over
+// if less than half of the memory limit (if any) is left.
+func (s *State) cacheGrew(res object.Object, output []byte) {
+	const checkEvery = 8 << 20
+	s.cacheAdded += 128 + len(output) + max(object.Len(res), 0)*object.ObjectSize // an upper bound is good enough.
+	if s.cacheAdded < checkEvery {
+		return
+	}
+	s.cacheAdded = 0
+	if limit := debug.SetMemoryLimit(-1); limit != math.MaxInt64 && object.FreeMemory() < limit/2 {
+		log.Infof("Memory is getting low, resetting the function cache (%d entries)", len(s.cache))
+		s.ResetCache()
+	}
 }
 
 func (s *State) extendFunctionEnv(
